@@ -170,6 +170,16 @@ def check_annotated(env, acc, max_photons):
                 acc.tick("rejected_calls")
     keys = [(tuple(sorted(a0)), tuple(sorted(a1))) for a0, a1 in asg]
     small = [i for i, (a0, a1) in enumerate(asg) if len(a0) + len(a1) <= 2]
+    objs = [AnnotatedState([list(a0), list(a1)]) for a0, a1 in asg]
+    for i in range(len(asg)):         # equality is decided by the label multisets, for every pair
+        for j in range(len(asg)):
+            if i in small and j in small:
+                continue
+            acc.tick("executions"); acc.tick("transitions")
+            if (objs[i] == objs[j]) != (keys[i] == keys[j]) or (objs[i] != objs[j]) != (keys[i] != keys[j]):
+                acc.violation("equality", {"a": asg[i], "b": asg[j], "seed": env.seed}, None)
+            elif objs[i] == objs[j] and hash(objs[i]) != hash(objs[j]):
+                acc.violation("equal_states_hash_differently", {"a": asg[i], "b": asg[j], "seed": env.seed}, None)
     for i in small:
         for j in small:
             acc.tick("executions"); acc.tick("transitions")
